@@ -107,3 +107,14 @@ Theorem C14_attr_decode_total : forall b, attr_decode b <> Panic /\ attr_decode 
 Proof. exact attr_decode_total. Qed.
 Theorem C14_attr_encode_no_panic : forall m, attr_encode m <> Panic /\ attr_encode m <> OutOfFuel.
 Proof. exact attr_encode_no_panic. Qed.
+
+(* ==== the tables of the attribute codec model are the ones regenerated from the source on every run
+   (Gen/SourceTables.v <- attributes/type_id.rs, basic_types.rs; Proofs/SourceTablesFacts.v) *)
+From RbxVerif Require Import SourceTablesFacts.
+From RbxVerif Require SourceTables.
+Theorem C14_attr_type_ids_match_source : resolve_attr_ids = Some Attr.attr_type_ids.
+Proof. exact attr_type_ids_match_source. Qed.
+Theorem C14_attr_string_id_matches_source : Attr.from_variant_type Attr.VT_String = Some SourceTables.src_attr_string_id.
+Proof. exact attr_string_id_matches_source. Qed.
+Theorem C14_rotation_table_matches_source : resolve_rotations = Some Rotation.rotation_table.
+Proof. exact rotation_table_matches_source. Qed.
